@@ -191,6 +191,10 @@ def replay(case):
         return False, 'counterexample arguments could not be parsed: ' + case.get('what', '')[:200]
     mod = importlib.import_module('vlib.xh.' + inp['module'])
     fn = getattr(mod, inp['func'])
+    m = re.search(r'TAPE=(\[[^\]]*\])', case.get('what', ''))
+    if m:
+        import vlib.xh.xutil as xutil
+        xutil.REPLAY_TAPE = ast.literal_eval(m.group(1))
     try:
         r = fn(*call.get('args', []), **call.get('kwargs', {}))
     except Exception as e:  # noqa
